@@ -25,6 +25,7 @@ TARGETS = {
     "armv7m": ("core/ascon-asm-armv7m.S", ["--target=thumbv7m-none-eabi"], "thumb"),
     "armv7a-thumb2": ("core/ascon-asm-armv7m.S", ["--target=armv7a-none-eabi", "-mthumb"], "thumb"),
     "armv8a": ("core/ascon-asm-armv8a-64.S", ["--target=aarch64-none-elf", "-D__ARM_ARCH_8A"], None),
+    "armv8a+bti": ("core/ascon-asm-armv8a-64.S", ["--target=aarch64-none-elf", "-D__ARM_ARCH_8A", "-mbranch-protection=standard"], None),
     "riscv32i": ("core/ascon-asm-riscv32i.S", ["--target=riscv32-unknown-elf", "-march=rv32i"], None),
     "riscv64i": ("core/ascon-asm-riscv64i.S", ["--target=riscv64-unknown-elf", "-march=rv64i"], None),
     "avr5": ("core/ascon-asm-avr5.S", ["--target=avr", "-mmcu=atmega328p", "-D__AVR_ARCH__=5"], None),
@@ -43,7 +44,7 @@ def stub_inc():
 
 
 def tools_present():
-    return all(shutil.which(t) for t in ("clang", "llvm-readelf-14"))
+    return all(shutil.which(t) for t in ("clang", "llvm-readelf-14", "llvm-objdump-14"))
 
 
 def globals_declared(path):
@@ -100,9 +101,89 @@ def check_one(name):
                 return "%s is marked as a Thumb function in the ARM-state file" % n, facts
         if undefined:
             return "object for %s refers to undefined symbol %s" % (name, undefined[0]), facts
+        problem = encoding_rules(name, obj, table, want)
+        if problem:
+            return problem, facts
+        if isa:
+            problem = alignment_rule(name, src, args, inc, tmp)
+            if problem:
+                return problem, facts
         return None, facts
     finally:
         shutil.rmtree(tmp, ignore_errors=True)
+
+
+def disassemble(obj):
+    """{symbol: [(offset, [encoding bytes], text), ...]} from llvm-objdump."""
+    rc, out = sh(["llvm-objdump-14", "-d", obj])
+    funcs, cur = {}, None
+    for line in out.splitlines():
+        m = re.match(r"^[0-9a-f]+ <([^>]+)>:", line)
+        if m:
+            cur = funcs.setdefault(m.group(1), [])
+            continue
+        m = re.match(r"^\s*([0-9a-f]+):\s+((?:[0-9a-f]{2} )+|[0-9a-f]{4,8}\s)\s*(.*)$", line)
+        if m and cur is not None:
+            enc = m.group(2).split()
+            cur.append((int(m.group(1), 16), enc, m.group(3).strip()))
+    return funcs
+
+
+def encoding_rules(name, obj, table, want):
+    """Rules that only the encoded object can answer."""
+    if name.startswith("riscv"):
+        # built for a base ISA without the C extension (-march=rv32i / rv64i): every instruction is a 32-bit parcel,
+        # whatever `.option` directives the text carries
+        for fn, insns in disassemble(obj).items():
+            for off, enc, text in insns:
+                nbytes = len(enc) if all(len(e) == 2 for e in enc) else sum(len(e) // 2 for e in enc)
+                if nbytes == 2:
+                    return "%s+0x%x is a 16-bit compressed encoding (%s) in an object built for %s, a core without the C extension" % (fn, off, text, name)
+    if name == "armv8a+bti":
+        rc, notes = sh(["llvm-readelf-14", "-n", obj])
+        if "BTI" in notes:
+            # the object promises the linker that every indirect-branch target starts with a landing pad
+            dis = disassemble(obj)
+            for fn in want:
+                insns = dis.get(fn) or []
+                first = insns[0][2] if insns else "?"
+                word = "".join(reversed(insns[0][1])) if insns and all(len(e) == 2 for e in insns[0][1]) else ""
+                if word not in ("d503245f", "d50324df", "d503233f", "d503237f"):
+                    return ("the object carries the BTI property note, but the entry point %s starts with `%s`, not with a landing pad "
+                            "(a call through a PLT or a function pointer faults)" % (fn, first))
+    return None
+
+
+def alignment_rule(name, src, args, inc, tmp):
+    """ARM / Thumb code that addresses data relative to pc (adr, literal loads, word tables) relies on 4-byte placement.  The
+    integrated assembler always aligns a section called .text to 4, so the file is assembled once more with its code in a
+    section of another name, which gets exactly the alignment the file asks for."""
+    rc, text = sh(["clang"] + args + ["-Wno-unused-command-line-argument", "-E", "-x", "assembler-with-cpp"] + inc + [src])
+    if rc != 0:
+        return None
+    body = "\n".join(l for l in text.splitlines() if not l.startswith("#"))
+    if not re.search(r"^\s*(adr\s|ldr\s+\w+\s*,\s*(=|\[\s*pc)|\.word\s)", body, re.M | re.I):
+        return None
+    body2 = re.sub(r"^\s*\.text\s*$", '\t.section .text.ascon_check,"ax",%progbits', body, flags=re.M)
+    if body2 == body:
+        return None
+    spath, opath = os.path.join(tmp, "re.s"), os.path.join(tmp, "re.o")
+    open(spath, "w").write(body2 + "\n")
+    rc, out = sh(["clang"] + [a for a in args if not a.startswith("-D")] + ["-Wno-unused-command-line-argument", "-c", "-x", "assembler", spath, "-o", opath])
+    if rc != 0:
+        return None
+    rc, secs = sh(["llvm-readelf-14", "-S", "-W", opath])
+    for line in secs.splitlines():
+        if ".text.ascon_check" in line:
+            f = line.split()
+            try:
+                align = int(f[-1])
+            except ValueError:
+                return None
+            if align < 4:
+                return ("the code addresses data relative to pc (adr / literal load / word table) but only asks for %d-byte alignment of its section: "
+                        "placed at an address that is 2 modulo 4 the pc-relative addresses are off by two" % align)
+    return None
 
 
 def run(ev, tier, seen, record):
